@@ -191,6 +191,20 @@ theorem line_through_means (b : Block) (model : Model) (kh kw : Nat) (fr : Bool)
         rw [hg]; field_simp; ring
   · cases hfit
 
+/-- **Constant reference block** (gain-blk-offset): when the reference is constant `c ≠ 0` over the block, the block normalisation
+    is `(n0, n1) = (std ref / std src, p1(ref) - p1(src)·n0) = (0, c)`; the normalised source is `c` everywhere, so a window with
+    `N ≠ 0` jointly valid pixels has sums `S = R = N·c`, and the fitted parameters are gain `0`, offset `c` - a line that maps
+    every source value, in particular the window's mean, to the (mean) reference value `c`.  No division by the block gain occurs. -/
+theorem blk_offset_constant_reference (s : Sums) (c : ℚ) (hc : c ≠ 0) (hN : s.N ≠ 0) (hS : s.S = s.N * c) (hR : s.R = s.N * c)
+    (findR2 : Bool) :
+    ∃ p, fitGainBlkOffsetS s findR2 0 c = some p ∧ p.gain = 0 ∧ p.offset = c ∧ ∀ x : ℚ, applyParams p x = c := by
+  have hne : s.N * c ≠ 0 := mul_ne_zero hN hc
+  unfold fitGainBlkOffsetS fitGainS divO
+  rw [hS, hR]
+  simp only [hne, if_false, Option.map_some]
+  refine ⟨_, rfl, by simp, by simp [div_self hne], fun x => ?_⟩
+  simp [applyParams, div_self hne]
+
 /-- **Kernel shape validation**: accepted iff both dimensions are odd and at least one, and the area is at least two
     for the gain-offset model. -/
 theorem validate_kernel_shape_spec (kh kw : Int) (model : Model) :
